@@ -23,6 +23,14 @@ CHECKS = {
              "rendering's token list with the marker replaced by exactly one literal decoding to the value. Exhaustive over alphabet x "
              "position x dialect within the length bound.",
         ref="6/C05", technique="TLA+ reference lexer + encoder round-trip model-checked (PT_Lex, MC_Lex); TLC lexes real statement text (J_Lit)"),
+    "C07": dict(
+        text="TLC proves on the specification that the intended identifier encoder (quote, double embedded quotes) round-trips through the "
+             "reference lexer of every dialect, stand-alone and embedded in a qualified reference. Then ~250 names (all strings of length <=2 "
+             "over a 13-class alphabet incl. both quote characters, dots, spaces, brackets; keywords; mixed case; seeded Unicode) are placed at "
+             "39 emission sites x 6 dialects through the real builders; TLC lexes the emitted characters and requires every occurrence of the "
+             "benign marker identifier to have become one identifier token in the dialect's quote character decoding to the name, nothing else "
+             "changed. Exhaustive over alphabet x site x dialect within the bound.",
+        ref="6/C07", technique="TLA+ reference lexer + identifier encoder round-trip (PT_Lex, MC_Lex); TLC lexes real statement text (J_Lit)"),
     "C18": dict(
         text="TLC proves on the specification that the intended encoder round-trips through the field-layout decoder for every 7-tuple "
              "over the digit-pattern set (either sign of the leading component, quarters, weeks, both templates); the same tuples plus "
